@@ -92,6 +92,8 @@ void h_get_call_rcu_data(void)
 	struct call_rcu_data *r;
 	mk();
 	r = get_call_rcu_data();
+	VERIF_ASSERT(URCU_TLS(thread_call_rcu_data) == ((in_thread & 1) ? &CT : (struct call_rcu_data *) 0) && TBL[0] == (((in_occ >> 0) & 1) ? &CC[0] : (struct call_rcu_data *) 0) && TBL[1] == (((in_occ >> 1) & 1) ? &CC[1] : (struct call_rcu_data *) 0) && TBL[2] == (((in_occ >> 2) & 1) ? &CC[2] : (struct call_rcu_data *) 0),
+		     "get_call_rcu_data: a pure selection - the thread's helper pointer and the per-CPU table are left as they are (a cached per-CPU helper would outlive free_all_cpu_call_rcu_data)");
 	if (in_thread & 1) VERIF_ASSERT(r == &CT, "get_call_rcu_data: the thread's own helper has first priority");
 	else if (L > 0 && CPU_ENTRY) VERIF_ASSERT(r == CPU_ENTRY, "get_call_rcu_data: then the helper of the CPU the thread runs on");
 	else if (in_default & 1) VERIF_ASSERT(r == &CD && G_os_thread_created == 0, "get_call_rcu_data: then the existing default helper");
